@@ -450,50 +450,42 @@ pub fn expand_glob(tokens: &mut types::Tokens) {
     }
 }
 
-fn expand_one_env(sh: &Shell, token: &str) -> String {
+/// Expand the first (leftmost) reference in `token`.  Returns the text up to
+/// and including the inserted value and, separately, the rest of the token:
+/// only the rest still has to be looked at, an inserted value is data.
+fn expand_one_env(sh: &Shell, token: &str) -> (String, String) {
     // do not combine these two into one: `\{?..\}?`,
     // otherwize `}` in `{print $NF}` would gone.
     let re1 = Regex::new(r"^(.*?)\$([A-Za-z0-9_]+|\$|\?)(.*)$").unwrap();
     let re2 = Regex::new(r"(.*?)\$\{([A-Za-z0-9_]+|\$|\?)\}(.*)$").unwrap();
-    if !re1.is_match(token) && !re2.is_match(token) {
-        return token.to_string();
-    }
 
-    let mut result = String::new();
-    let match_re1 = re1.is_match(token);
-    let match_re2 = re2.is_match(token);
-    if !match_re1 && !match_re2 {
-        return token.to_string();
-    }
-
-    let cap_results = if match_re1 {
-        re1.captures_iter(token)
-    } else {
-        re2.captures_iter(token)
+    let cap = match (re1.captures(token), re2.captures(token)) {
+        // the reference that starts first
+        (Some(c1), Some(c2)) => if c1[1].len() <= c2[1].len() { c1 } else { c2 },
+        (Some(c1), None) => c1,
+        (None, Some(c2)) => c2,
+        (None, None) => return (token.to_string(), String::new()),
     };
 
-    for cap in cap_results {
-        let head = cap[1].to_string();
-        let tail = cap[3].to_string();
-        let key = cap[2].to_string();
-        if key == "?" {
-            result.push_str(format!("{}{}", head, sh.previous_status).as_str());
-        } else if key == "$" {
-            unsafe {
-                let val = libc::getpid();
-                result.push_str(format!("{}{}", head, val).as_str());
-            }
-        } else if let Ok(val) = env::var(&key) {
-            result.push_str(format!("{}{}", head, val).as_str());
-        } else if let Some(val) = sh.get_env(&key) {
-            result.push_str(format!("{}{}", head, val).as_str());
-        } else {
-            result.push_str(&head);
+    let head = cap[1].to_string();
+    let tail = cap[3].to_string();
+    let key = cap[2].to_string();
+    let mut done = String::new();
+    if key == "?" {
+        done.push_str(format!("{}{}", head, sh.previous_status).as_str());
+    } else if key == "$" {
+        unsafe {
+            let val = libc::getpid();
+            done.push_str(format!("{}{}", head, val).as_str());
         }
-        result.push_str(&tail);
+    } else if let Ok(val) = env::var(&key) {
+        done.push_str(format!("{}{}", head, val).as_str());
+    } else if let Some(val) = sh.get_env(&key) {
+        done.push_str(format!("{}{}", head, val).as_str());
+    } else {
+        done.push_str(&head);
     }
-
-    result
+    (done, tail)
 }
 
 fn need_expand_brace(line: &str) -> bool {
@@ -820,10 +812,16 @@ pub fn expand_env(sh: &Shell, tokens: &mut types::Tokens) {
             continue;
         }
 
-        let mut _token = token.clone();
-        while env_in_token(&_token) {
-            _token = expand_one_env(sh, &_token);
+        // one pass from left to right: an inserted value is never scanned
+        // again, whatever it contains
+        let mut _token = String::new();
+        let mut rest = token.clone();
+        while env_in_token(&rest) {
+            let (done, tail) = expand_one_env(sh, &rest);
+            _token.push_str(&done);
+            rest = tail;
         }
+        _token.push_str(&rest);
         buff.push((idx, _token));
         idx += 1;
     }
